@@ -228,3 +228,8 @@ func VerifC18NodeStamp(n *VerifNode) string {
 		cs.TriggeredTimeoutPrecommit, cs.Proposal, cs.ProposalBlock, cs.ProposalBlockParts, pbpCount, cs.LockedBlock, cs.ValidBlock, cs.Votes, cs.LastCommit,
 		cs.state.LastBlockHeight, len(n.App.Saved), n.Steps, len(cs.peerMsgQueue), len(cs.internalMsgQueue), to, n.Failed != nil, claims)
 }
+
+// VerifC18Retained is what the consensus state keeps for the current height on behalf of peers.
+func VerifC18Retained(cs *ConsensusState) (rounds int, catchup map[string]int, claims int, blockTallies int) {
+	return cs.Votes.VerifC18Retained()
+}
